@@ -115,6 +115,7 @@ type Pkt struct {
 	Src, Dst         netip.Addr
 	Path             spathpkg.Path
 	TrafficClass     uint8
+	FlowID           uint32 // 0: 1
 	E2E              []*slayers.EndToEndOption // nil: no end-to-end extension
 	HBH              bool                      // add an (empty-ish) hop-by-hop extension
 	SrcPort, DstPort uint16
@@ -136,6 +137,9 @@ func (p *Pkt) scionLayer() (*slayers.SCION, error) {
 	s.Version = 0
 	s.TrafficClass = p.TrafficClass
 	s.FlowID = 1
+	if p.FlowID != 0 {
+		s.FlowID = p.FlowID & 0xfffff
+	}
 	s.SrcIA, s.DstIA = p.SrcIA, p.DstIA
 	if err := s.SetSrcAddr(addr.HostIP(p.Src.Unmap())); err != nil {
 		return nil, err
